@@ -193,6 +193,28 @@ void harness(void)
   }
   WITNESS_POINT();
 }
+#elif defined(H_STREAMS)
+/* C03: the T stream objects that prepare_AES hands to the workers are pairwise DIFFERENT objects, for every cipher mode and both directions.
+   Every runcry() writes its own object (mode register, AES working state aeshandle::w - the frame condition of the C10 step obligations)
+   outside any critical section; one object driven by two workers is a data race whose outcome depends on the interleaving. */
+u8 *vf_rc_prepare_aes(u8 *r, u8 ctype, u8 *iv, u32 enc);
+void harness(void)
+{
+  LOAD_INPUTS();
+  u8 key[16];
+  memcpy(key, IN.key, 16);
+  memcpy(FILEB, IN.file, FLEN);
+  u8 *fin = envf_open_in(FILEB, FLEN);
+  u8 *out = envf_open_out(OUTCAP);
+  u8 *r = vf_rc_new(fin, out, key, (u32)-1, (u32)-1, THREADS);
+  u8 ct = IN.alt % 5;
+  u8 *modes = vf_rc_prepare_aes(r, ct, FILEB, ENCDIR);
+  for (u32 i = 0; i < THREADS; i++) {
+    CHECK(((u8 **)modes)[i] != 0, "one stream object per worker");
+    for (u32 j = 0; j < i; j++) CHECK(((u8 **)modes)[i] != ((u8 **)modes)[j], "no two workers are given the same stream object (runcry mutates its object without synchronisation)");
+  }
+  WITNESS_POINT();
+}
 #elif defined(H_VERIFY_EQ_DECRYPT)
 /* C12: verification succeeds exactly when decryption of the same bytes with the same key succeeds */
 void harness(void)
